@@ -19,10 +19,8 @@ import (
 	"verifharness/internal/h"
 
 	"github.com/dominant-strategies/go-quai/common"
-	"github.com/dominant-strategies/go-quai/core/rawdb"
 	"github.com/dominant-strategies/go-quai/core/types"
 	"github.com/dominant-strategies/go-quai/ethdb"
-	"github.com/dominant-strategies/go-quai/log"
 	"github.com/dominant-strategies/go-quai/trie"
 )
 
@@ -63,8 +61,14 @@ func txRoot(txs types.Transactions) common.Hash {
 var c07Mutations = []c07Mutation{
 	{"evmroot", func(w *cwWorld, m *types.WorkObject) bool { m.Header().SetEVMRoot(flip(m.EVMRoot())); return true }},
 	{"utxoroot", func(w *cwWorld, m *types.WorkObject) bool { m.Header().SetUTXORoot(flip(m.UTXORoot())); return true }},
-	{"etxsetroot", func(w *cwWorld, m *types.WorkObject) bool { m.Header().SetEtxSetRoot(flip(m.EtxSetRoot())); return true }},
-	{"receipthash", func(w *cwWorld, m *types.WorkObject) bool { m.Header().SetReceiptHash(flip(m.ReceiptHash())); return true }},
+	{"etxsetroot", func(w *cwWorld, m *types.WorkObject) bool {
+		m.Header().SetEtxSetRoot(flip(m.EtxSetRoot()))
+		return true
+	}},
+	{"receipthash", func(w *cwWorld, m *types.WorkObject) bool {
+		m.Header().SetReceiptHash(flip(m.ReceiptHash()))
+		return true
+	}},
 	{"gasused", func(w *cwWorld, m *types.WorkObject) bool {
 		if m.GasUsed()+1 > m.GasLimit() {
 			return false
@@ -79,15 +83,24 @@ var c07Mutations = []c07Mutation{
 		m.Header().SetStateUsed(m.StateUsed() + 1)
 		return true
 	}},
-	{"statesize", func(w *cwWorld, m *types.WorkObject) bool { m.Header().SetQuaiStateSize(bump(m.QuaiStateSize())); return true }},
+	{"statesize", func(w *cwWorld, m *types.WorkObject) bool {
+		m.Header().SetQuaiStateSize(bump(m.QuaiStateSize()))
+		return true
+	}},
 	{"avgtxfees", func(w *cwWorld, m *types.WorkObject) bool { m.Header().SetAvgTxFees(bump(m.AvgTxFees())); return true }},
 	{"totalfees", func(w *cwWorld, m *types.WorkObject) bool { m.Header().SetTotalFees(bump(m.TotalFees())); return true }},
 	{"uncledentropy", func(w *cwWorld, m *types.WorkObject) bool {
 		m.Header().SetUncledEntropy(bump(m.Header().UncledEntropy()))
 		return true
 	}},
-	{"outboundetxhash", func(w *cwWorld, m *types.WorkObject) bool { m.Header().SetOutboundEtxHash(flip(m.OutboundEtxHash())); return true }},
-	{"txhash", func(w *cwWorld, m *types.WorkObject) bool { m.Header().SetTxHash(flip(m.Header().TxHash())); return true }},
+	{"outboundetxhash", func(w *cwWorld, m *types.WorkObject) bool {
+		m.Header().SetOutboundEtxHash(flip(m.OutboundEtxHash()))
+		return true
+	}},
+	{"txhash", func(w *cwWorld, m *types.WorkObject) bool {
+		m.Header().SetTxHash(flip(m.Header().TxHash()))
+		return true
+	}},
 	{"droptx", func(w *cwWorld, m *types.WorkObject) bool {
 		txs := m.Transactions()
 		if len(txs) == 0 {
@@ -282,7 +295,7 @@ func runC07(seed uint64, n int, outDir string, replay string) {
 					o.Pad("panic %v", p)
 				}
 			}()
-			w, err := newWorld(rawdb.NewMemoryDatabase(log.Global), rc, rg, zoneOpts{})
+			w, err := newWorld(newMemDB(), rc, rg, zoneOpts{})
 			if err != nil {
 				panic(err)
 			}
